@@ -119,13 +119,20 @@ CLAIMED.update({
    note="The subscription mapper's full field map and the PostgreSQL-text branch of the interval parser (known defects on negative / overflowing text, not repaired, outside the claim) are not under contract. "+TRUST,
    design="4/C17"),
 })
+CLAIMED["C19"] = dict(
+   text="Deductive proof of the sequential parts of HTTP push (actions/http-push-streamer.go): Send hands the JSON encoder an envelope that carries the delivery faithfully (base64 of the payload, attribute map, message id text, ordering key, "
+        "publish time in RFC 3339 with nanoseconds, subscription name, delivery attempt - against a ghost pointer to the marshalled value); the goroutine it starts puts the delivery id on an ack queue only after a success status "
+        "(102, 200, 201, 202, 204) and on the nack queue after any other status or a transport error, and sends nothing else (ghost history of channel sends, ghost HTTP outcome); Receive turns what it takes from the ack queues "
+        "into acks and from the nack queue into nacks, never mixed and never dropped, and keeps the adaptive window within 1..1000, announcing every change (drainIds loop with inductive invariants).",
+   note="Not decided: the JSON encoding itself and the HTTP transport (intrinsics), goroutine interleavings (answers out of order, the window actually limiting concurrent pushes - that is the streamer's flow control, C11), 'pushed again after the backoff' (the nack path is C04). "
+        "Channels are modelled by a ghost history of what this code sent/received; blocking and buffering are not modelled. "+TRUST,
+   design="9.5/C19")
 CLAIMED["C10"]["text"] += (" W3: PublishAwaiter registers a fresh open one-shot channel for exactly that subscription and CancelPublishAwaiter removes exactly that registration (registry representation invariant preserved); in the pull action a waiter for the subscription is registered at every candidate look-up (precondition 'listening' of the query, an obligation in the verified single-transaction entry point).")
 CLAIMED["C10"]["text"] += (" W2: every state-changing action that can make a delivery available (publish, dead-letter, delay to now, seek, prune-expired, expiry, create/delete subscription, ack on ordered subscriptions) requests a wake-up of the affected subscription "
         "and does so through a commit hook that fires only after a successful commit (hook obligations).")
 CLAIMED["C07"]["text"] += " deliverToSubscription is proved to use exactly that evaluator on the stored filter and the message's attributes."
 REASONS = {
  "C11": "no contract within reach decides it: the property is about the interleaving of the streaming-pull goroutines (flow-control window accounting across concurrent Send/ack handlers); the verifier built here is sequential (one function, one thread), and the accounting lives in closures communicating over channels. Not claimed rather than switching technique.",
- "C19": "the HTTP push connection (httpPushStreamConn.Send/Receive) interleaves goroutines, net/http and JSON encoding; no per-function contract of those was built. Not claimed.",
 }
 
 def reason(pid):
